@@ -278,6 +278,10 @@ class Bundle:
         # Add it to our type-based containers, and return it.
         return _add(bundle=self, val=val)
 
+    def __copy__(self) -> "Bundle":
+        # A shallow copy would share our member tables: additions to either would be additions to both.
+        raise TypeError(f"Cannot copy {self}: define a new Bundle instead")
+
     def get(self, name: str) -> Optional[BundleAttr]:
         """Get attribute `name`. Returns `None` if not present.
         Note unlike Python built-ins such as `getattr`, `get` returns solely
@@ -528,6 +532,11 @@ class AnonymousBundle:
         Note unlike Python built-ins such as `getattr`, `get` returns solely
         from the HDL namespace-worth of attributes."""
         return self._namespace.get(name, None)
+
+    def __copy__(self) -> "AnonymousBundle":
+        """Anonymous bundle copying. Keeps the members, in a namespace of the copy's own,
+        while dropping per-connection state such as the set of connected ports."""
+        return AnonymousBundle(**self._namespace)
 
 
 def bundlize(**kwargs) -> AnonymousBundle:
